@@ -217,7 +217,7 @@ inductive B where
   | getitem | attr | mkTuple | mkList | mkSet | mkDict
   | len | int_ | list_ | tuple_ | set_ | sorted | flatten | any | all | max | min
   | isStr | isInt | isList | isTuple | isDict | isCounter
-  | counter | reCompile | union | get | items | keys | mostCommon | lower | count | deepcopy | enumerate
+  | counter | reCompile | union | get | items | keys | mostCommon | lower | count | deepcopy | enumerate | strip
   | ext (name : String)
 deriving Repr, Inhabited, DecidableEq
 
@@ -318,6 +318,7 @@ def opNotin : List PV → Except Err PV
 def opGetitem : List PV → Except Err PV
   | [.list xs, .int i] => pyIndexPV xs i
   | [.tuple xs, .int i] => pyIndexPV xs i
+  | [.str s, .int i] => pyIndexPV (s.toList.map (fun c => PV.str (String.singleton c))) i
   | [.dict kvs, k] => (match PV.lookup k kvs with | some v => .ok v | Option.none => .error (.keyError "key"))
   | [.counter kvs, k] => .ok ((PV.lookup k kvs).getD (.int 0))
   | _ => tyErr "not subscriptable"
@@ -461,6 +462,19 @@ def enumFrom (i : Nat) : List PV → List PV
   | [] => []
   | x :: xs => .tuple [.int i, x] :: enumFrom (i + 1) xs
 
+/-- the characters `str.strip()` removes (Unicode White_Space plus the four information separators, as CPython's `str.isspace`) -/
+def isPySpace (c : Char) : Bool :=
+  let n := c.toNat
+  (9 ≤ n && n ≤ 13) || (28 ≤ n && n ≤ 32) || n == 0x85 || n == 0xa0 || n == 0x1680 || (0x2000 ≤ n && n ≤ 0x200a)
+    || n == 0x2028 || n == 0x2029 || n == 0x202f || n == 0x205f || n == 0x3000
+
+def pyStrip (s : String) : String :=
+  String.ofList ((s.toList.dropWhile isPySpace).reverse.dropWhile isPySpace).reverse
+
+def opStrip : List PV → Except Err PV
+  | [.str s] => .ok (.str (pyStrip s))
+  | _ => tyErr "strip"
+
 def opEnumerate : List PV → Except Err PV
   | [v] => (iterOf v).map (fun xs => .list (enumFrom 0 xs))
   | _ => tyErr "enumerate"
@@ -516,6 +530,7 @@ def builtinOp : B → List PV → Except Err PV
   | .count, vs => opCount vs
   | .deepcopy, vs => opDeepcopy vs
   | .enumerate, vs => opEnumerate vs
+  | .strip, vs => opStrip vs
   | .ext name, _ => .error (.missingExt name)
 
 /-- mutating methods on a local name: the new value of the receiver -/
